@@ -130,6 +130,69 @@ def hostile_mutants(data, dataoff, limit=320):
     return out
 
 
+def chunk_list(data, major):
+    """[(start, end)] of the chunks of a RIFF / RF64 / W64 / AIFF / CAF file (end includes padding); stops at the first chunk that does not fit"""
+    out = []
+    if major in (1, 0x13, 0x22, 2):
+        big = major == 2
+        pos = 12
+        while pos + 8 <= len(data):
+            n = struct.unpack(">I" if big else "<I", data[pos + 4:pos + 8])[0]
+            if data[pos:pos + 4] in (b"data", b"SSND"):
+                out.append((pos, len(data)))
+                break
+            end = pos + 8 + n + (n & 1)
+            if end > len(data):
+                break
+            out.append((pos, end))
+            pos = end
+    elif major == 0xb:
+        pos = 40
+        while pos + 24 <= len(data):
+            n = struct.unpack("<Q", data[pos + 16:pos + 24])[0]
+            if data[pos:pos + 4] == b"data":
+                out.append((pos, len(data)))
+                break
+            end = pos + ((n + 7) & ~7)
+            if n < 24 or end > len(data):
+                break
+            out.append((pos, end))
+            pos = end
+    elif major == 0x18:
+        pos = 8
+        while pos + 12 <= len(data):
+            n = struct.unpack(">q", data[pos + 4:pos + 12])[0]
+            if data[pos:pos + 4] == b"data":
+                out.append((pos, len(data)))
+                break
+            end = pos + 12 + n
+            if n < 0 or end > len(data):
+                break
+            out.append((pos, end))
+            pos = end
+    return out
+
+
+def chunk_mutants(data, major):
+    """structure-level changes of a chunked file, sizes left consistent: every header chunk twice and three times in a row, every header
+    chunk repeated just in front of the audio, every header chunk removed, every pair of neighbours swapped"""
+    cl = chunk_list(data, major)
+    if len(cl) < 2:
+        return []
+    hdr, body = cl[:-1], cl[-1]
+    out = []
+    for a, b in hdr:
+        c = data[a:b]
+        out.append(data[:b] + c + data[b:])
+        out.append(data[:b] + c + c + data[b:])
+        out.append(data[:body[0]] + c + data[body[0]:])
+        out.append(data[:a] + data[b:])
+    for (a, b), (c, d) in zip(hdr, hdr[1:]):
+        out.append(data[:a] + data[c:d] + data[a:b] + data[d:])
+    # (RIFF / FORM sizes are not adjusted: the readers take the chunk sizes, and a wrong outer size is one more thing to survive)
+    return out
+
+
 CALLS = ["read 0 s f 7", "read 0 i i 12", "read 0 f f 3", "read 0 d i 24", "read 0 s i 5000", "read 0 f f 100000", "seek 0 0 0", "seek 0 3 0", "seek 0 -1 2", "seek 0 2 1", "seek 0 0 2", "seek 0 5 16",
          "seek 0 1000000 0", "seek 0 0 17", "getstr 0 1", "getstr 0 4", "info 0", "calc 0 CALC_SIGNAL_MAX", "calc 0 CALC_NORM_MAX_ALL_CHANNELS", "calc 0 GET_SIGNAL_MAX", "calc 0 GET_MAX_ALL_CHANNELS",
          "chit 0 0 null", "chget 0 0 -1", "chnext 0 0", "chget 0 0 2", "chit 0 0 41424344", "chget 0 0 -1", "errq 0", "cmd 0 GET_NORM_FLOAT 0", "read 0 r i 64",
@@ -143,6 +206,8 @@ def scenarios(S, seeds, rng, per_seed, routes=("vio",), ncalls=12, systematic=Fa
             ms = ms + systematic_mutants(data, do)
         if systematic == 2:
             ms = ms + hostile_mutants(data, do)
+        if systematic:
+            ms = ms + chunk_mutants(data, scen.major(fmt))
         for m in ms:
             rt = rng.choice(routes)
             S.scn(fmt="0x%x" % fmt, ch=ch, kind="c03", relax=1, route=rt, nodata=1)
